@@ -29,7 +29,7 @@
    implementation. *)
 From Coq Require Import List ZArith Bool Arith Lia.
 Import ListNotations.
-From QV Require Import Model.C01 Proofs.C01 Proofs.C01_pred Proofs.C01_add Proofs.C01_dia Proofs.C01_reshape.
+From QV Require Import Model.C01 Proofs.C01 Proofs.C01_pred Proofs.C01_add Proofs.C01_dia Proofs.C01_reshape Proofs.C01_kron.
 
 Section Props.
 Variable C : Type.
@@ -404,6 +404,28 @@ Proof.
   intros row [<-|[<-|[<-|[]]]]; (split; [repeat constructor; simpl; intuition lia
     | intros p Hp; simpl in Hp; intuition (subst; simpl; lia)]).
 Qed.
+
+(* ------------------------------------------------------------ kron_csr *)
+(* Kronecker product of two CSR operands (rows in any stored order, explicit
+   zeros allowed): entry (ia*nr_r + ib, ja*nc_r + jb) is the product of the
+   entries (ia, ja) and (ib, jb); only 0*x = x*0 = 0 is assumed of the ring *)
+Theorem C01_kron_csr : forall (C : Type) (c0 : C) (cmul : C -> C -> C),
+  (forall x, cmul c0 x = c0) -> (forall x, cmul x c0 = c0) ->
+  forall (l r : csr C) ia ib ja jb,
+  wf_csr C l -> wf_csr C r ->
+  ia < s_nr C l -> ib < s_nr C r -> ja < s_nc C l -> jb < s_nc C r ->
+  den_csr C c0 (kron_csr C cmul l r) (ia * s_nr C r + ib) (ja * s_nc C r + jb) =
+  cmul (den_csr C c0 l ia ja) (den_csr C c0 r ib jb).
+Proof. exact kron_csr_den. Qed.
+Print Assumptions C01_kron_csr.
+
+Example C01_nonvacuous_kron :
+  let l := G_csr_of_raw 1 2 [0; 2] [1; 0] [(2, 0); (0, 1)]%Z in
+  let r := G_csr_of_raw 2 2 [0; 1; 3] [1; 1; 0] [(3, 0); (1, 1); (5, 0)]%Z in
+  vC (G_kron_csr l r) =
+    (2, 4, [0; 2; 6], [3; 1; 3; 2; 1; 0],
+     [(6, 0); (0, 3); (2, 2); (10, 0); (-1, 1); (0, 5)]%Z).
+Proof. vm_compute. reflexivity. Qed.
 
 (* ----------------------------------------------------------- dispatcher *)
 (* V = data-layer objects, ty = their concrete type, den = the matrix they
